@@ -28,8 +28,12 @@ NAME_POOL = [
     ("a b",), ("a  b",), (2, " buns"), ("buns for ", 4), ("rest area",), ("g force",), ("of mice",), ("x",), ("y",), ("z",),
     ("it's",), ('say "hi"',), ("a,b",), ("50% cream",), ("café",), ("tea spoon tin",), ("1st cut",), ("back\\slash",), ("tab\there",),
     ("gâteau",), ("lépiotes",), ("cupões",), ("kgß",), ("ofen",), ("restéd",), ("ml²",),
+    # numbers of value zero, text after a number in either letter case, numbers of either type with one value
+    ("mix ", 0), ("mix",), (0, " waste"), (2, " Buns"), ("Big ", 4, " Rolls"), ("big ", 4, " rolls"), ("buns for ", 4.0), ("dough ", Fraction(1, 2)), ("dough ", 0.5),
+    # white space other than blank and tab inside a name (legal in the unquoted spelling too)
+    ("olive\u00a0oil",), ("a\u3000b",), ("form\x0cfeed",), ("thin\u2009space",),
 ]
-STEP_POOL = [("fry",), ("chop",), ("boil",), ("mix well",), ("bake at 180",), ("simmer ", 10, " min",), ("slice, thinly",), ("it's done",), ("2 minute rest",)]
+STEP_POOL = [("fry",), ("chop",), ("boil",), ("mix well",), ("bake at 180",), ("simmer ", 10, " min",), ("slice, thinly",), ("it's done",), ("2 minute rest",), ("rest ", 0, " min"), ("prove ", 0.0, " h")]
 
 
 # ------------------------------------------------------------------ numbers
@@ -55,8 +59,7 @@ def number_spellings(x):
 # ------------------------------------------------------------------ strings
 def naked_ok(text):
     return bool(text) and not (set(text) & SPECIAL) and "\n" not in text and "\r" not in text \
-        and not text[0].isspace() and not text[-1].isspace() \
-        and not any(ch.isspace() and ch not in " \t" for ch in text)
+        and not text[0].isspace() and not text[-1].isspace()
 
 
 def first_word(text):
@@ -247,7 +250,12 @@ class Printer:
             # shorthand:  x, chop   (inside a step's argument list it must be parenthesised)
             if in_parens:
                 self.emit("(" + self.nl())
+            inner = sp.flip(0.15)      # the optional parentheses around the first operand:  (x, chop), fry
+            if inner:
+                self.emit("(" + self.nl())
             self.expr(inputs[0], key + (0,), in_parens=False)
+            if inner:
+                self.emit(self.nl() + ")")
             self.emit(hsp(sp) + "," + hsp(sp))
             self.emit(print_name(name, sp, False))
             if in_parens:
@@ -309,13 +317,62 @@ def print_desc(desc, sp):
 
 
 # ------------------------------------------------------------------ generation
+# The documented meaning must not lean on the code it is compared with: names are normalised here, not by ScaledValueString
+# (a slip in its constructor / strip / lower would otherwise cancel out on both sides of the comparison).
+def own_parts(parts):
+    """normal form of a string with numbers: adjacent text merged, empty text dropped, every number kept (a zero too)"""
+    out = []
+    for p in parts:
+        if isinstance(p, str) and out and isinstance(out[-1], str):
+            out[-1] += p
+        else:
+            out.append(p)
+    return tuple(p for p in out if not (isinstance(p, str) and p == ""))
+
+
+def own_key(parts):
+    """a name as the reference compares names: ignoring letter case and surrounding whitespace (numbers by value)"""
+    ps = list(own_parts(parts))
+    if ps and isinstance(ps[0], str):
+        ps[0] = ps[0].lstrip()
+    ps = list(own_parts(ps))
+    if ps and isinstance(ps[-1], str):
+        ps[-1] = ps[-1].rstrip()
+    return tuple(p.lower() if isinstance(p, str) else p for p in own_parts(ps))
+
+
+def raw_svs(parts):
+    """a ScaledValueString holding exactly own_parts(parts), made without running its constructor"""
+    s = SVS.__new__(SVS)
+    s._string = own_parts(parts)
+    return s
+
+
+def own_equal_value(a, b):
+    """Quantity.has_equal_value_to as documented: equal after unit conversion, to within float imprecision"""
+    import math
+    if a.unit is None and b.unit is None:
+        f = 1
+    elif a.unit is None or b.unit is None:
+        return False
+    else:
+        try:
+            f = UNIT_SYSTEM.convert_between(b.unit.lower(), a.unit.lower())
+        except KeyError:
+            if a.unit.lower() != b.unit.lower():
+                return False
+            f = 1
+    return math.isclose(a.value, b.value * f)
+
+
 def norm_name(name):
-    return str(SVS(list(name)).strip().lower()), tuple(type(p).__name__ if not isinstance(p, str) else None for p in SVS(list(name)).strip().lower()._string)
+    k = own_key(name)
+    return "".join(p if isinstance(p, str) else repr(p) for p in k), tuple(type(p).__name__ if not isinstance(p, str) else None for p in k)
 
 
 def svs_key(name):
     """normalised name as the reference defines it: ignore case and surrounding whitespace"""
-    return SVS(list(name)).strip().lower()
+    return own_key(name)
 
 
 def gen_number(rng, small=False):
@@ -344,6 +401,11 @@ def gen_quantity(rng, total=None):
                     w = int(w)
                 if isinstance(w, float) and ("e" in repr(w)):
                     continue
+                if rng.random() < 0.3:
+                    # the converted amount as a cook would write it, to three significant figures: no longer the whole amount
+                    w3 = float("%.3g" % float(w))
+                    if w3 != w and "e" not in repr(w3) and w3 > 0:
+                        w = int(w3) if w3.is_integer() else w3
                 return ("qty", w, n, rng.choice(["", " "]), prep)
         if u is None or u.lower() in UNITS:
             return ("qty", v, u, rng.choice(["", " "]) if u else "", prep if u else "")
@@ -536,10 +598,10 @@ def meaning(desc, fold=True):
 
     def el(e, key):
         if e[0] == "step":
-            return ("step", SVS(list(e[1])), tuple(el(x, key + (i,)) for i, x in enumerate(e[2])))
+            return ("step", raw_svs(e[1]), tuple(el(x, key + (i,)) for i, x in enumerate(e[2])))
         _, amt, name = e
-        nm = SVS(list(name))
-        nn = nm.strip().lower()
+        nm = raw_svs(name)
+        nn = own_key(name)
         if nn in defined:
             sid, idx = defined[nn]
             return ("ref", sid, idx, to_amount(amt))
@@ -559,7 +621,7 @@ def meaning(desc, fold=True):
             tree = el(e, (b, j))
             names, show = None, True
             if outs:
-                names = tuple(SVS(list(o)) for o in outs)
+                names = tuple(raw_svs(o) for o in outs)
             else:
                 si = single_ing(tree)
                 if si is not None:
@@ -567,7 +629,7 @@ def meaning(desc, fold=True):
             sid = len(stmts)
             if names:
                 for idx, nm in enumerate(names):
-                    nn = nm.strip().lower()
+                    nn = own_key(nm._string)
                     if nn in defined:
                         raise Rejected("redefined", ("out", (b, j), idx))
                     defined[nn] = (sid, idx)
@@ -621,7 +683,7 @@ def meaning(desc, fold=True):
             amt = rs[0][0][3]
             iq = inferred_qty(s["tree"])
             full = (isinstance(amt, Proportion) and (amt.value is None or amt.value == 1.0)) or \
-                   (isinstance(amt, Quantity) and iq is not None and amt.has_equal_value_to(iq))
+                   (isinstance(amt, Quantity) and iq is not None and own_equal_value(amt, iq))
             if not full:
                 continue
             body = s["tree"] if not s["named"] else ("sub", s["tree"], s["names"], s["show"])
